@@ -34,6 +34,7 @@ func Run(r *ev.Run) {
 	for s := 0; s < n; s++ {
 		session(r, gen.New(r.Seed, fmt.Sprintf("c09-%d-%d", s, rng.Int63())), s)
 	}
+	formsPart(r)
 	if MySQLLayer != nil {
 		MySQLLayer(r)
 	}
